@@ -356,6 +356,11 @@ func (fc *followerController) Replicate(stream proto.OxiaLogReplication_Replicat
 
 	closeStreamWg := concurrent.NewWaitGroup(1)
 	fc.closeStreamWg = closeStreamWg
+	// The entries up to here were synced before this stream started
+	syncedOffset := wal.InvalidOffset
+	if fc.wal != nil {
+		syncedOffset = fc.wal.LastOffset()
+	}
 	fc.Unlock()
 
 	go process.DoWithLabels(
@@ -373,7 +378,7 @@ func (fc *followerController) Replicate(stream proto.OxiaLogReplication_Replicat
 			"oxia":  "add-entries-sync",
 			"shard": fmt.Sprintf("%d", fc.shardId),
 		},
-		func() { fc.handleReplicateSync(stream) },
+		func() { fc.handleReplicateSync(stream, syncedOffset) },
 	)
 
 	return closeStreamWg.Wait(fc.ctx)
@@ -452,10 +457,7 @@ func (fc *followerController) append(req *proto.Append, stream proto.OxiaLogRepl
 	return nil
 }
 
-func (fc *followerController) handleReplicateSync(stream proto.OxiaLogReplication_ReplicateServer) {
-	// The entries up to here were synced before this stream started
-	oldHeadOffset := fc.wal.LastOffset()
-
+func (fc *followerController) handleReplicateSync(stream proto.OxiaLogReplication_ReplicateServer, oldHeadOffset int64) {
 	for {
 		fc.Lock()
 		if err := fc.syncCond.Wait(stream.Context()); err != nil {
